@@ -8,7 +8,7 @@ What the transformation changes (complete list):
  T2  only on request for a unit (generator under contract): `yield e` -> `__vc.emit(e)`
  T3  builtins len/range/enumerate/zip/map/isinstance/int/float/bool/min/max/sum/any/all/sorted/tuple/list/dict/
      set/next/iter/abs/round/str/reversed are rebound to proxy-aware shims (real builtin on concrete values)
- T4  imports of numpy, scipy.spatial.KDTree, scipy.cluster.vq, pickle, yaml, h5py, shutil.rmtree, pathlib.Path,
+ T4  statements `logger.<level>(...)` are replaced by `pass` (their arguments are not evaluated); imports of numpy, scipy.spatial.KDTree, scipy.cluster.vq, pickle, yaml, h5py, shutil.rmtree, pathlib.Path,
      treecorr are rebound to contract shims; logging loggers are replaced by a null logger (dropped: logging)
  T5  `import yaw...` / `from yaw... import` -> yaw_sym...
  T6  compiled with `from __future__ import annotations`; annotations and docstrings are not evaluated
@@ -311,6 +311,15 @@ class Transformer(ast.NodeTransformer):
 
     def _qual(self):
         return ".".join(self.scope)
+
+    # -- T4: logging is dropped (including the evaluation of the arguments of the logging call) -------------
+    def visit_Expr(self, node):
+        v = node.value
+        if isinstance(v, ast.Call) and isinstance(v.func, ast.Attribute) and isinstance(v.func.value, ast.Name) \
+                and v.func.value.id == "logger" and v.func.attr in ("debug", "info", "warning", "error", "critical", "log"):
+            return ast.copy_location(ast.Pass(), node)
+        self.generic_visit(node)
+        return node
 
     # -- T2 ----------------------------------------------------------------------------------------------
     def visit_Yield(self, node):
